@@ -67,6 +67,11 @@ def _case(draw):
         src = d.pick(["\n\n", "\n", " "]).join(parts)
         if d.chance(0.2):
             src = d.pick(["> ", "- ", "1. "]) + src
+    elif k < 7:
+        # dense delimiter/bracket nests: the 'properly nested' clause lives here
+        src = "".join(gen.tight_nest(d) + d.pick(["", " "]) for _ in range(d.i(1, 3)))
+        if d.chance(0.3):
+            src = d.pick(["> ", "- ", "# ", "| "]) + src
     else:
         src = gen.any_doc_d(d)
     cfg = gen.config_d(d, html=False, bare_bias=0.15)
